@@ -62,6 +62,7 @@ pub struct RuleStats {
     pub signal_carried_over: u64,
     pub blocking_end_accounted: u64,
     pub time_backwards: u64,
+    pub draws_checked: u64,
 }
 
 #[derive(Clone, Debug)]
@@ -83,6 +84,48 @@ pub struct RefFw<'a> {
     pub slots: Vec<Option<usize>>,
     pub permits: Vec<(bool, bool)>,
     pub stats: RuleStats,
+    /// When the only consumers of randomness are the transition draws (every distribution of every
+    /// machine is a constant), the words the framework's random source hands out are known in advance
+    /// and the sampled target itself is prescribed (R3): the first target whose cumulative probability
+    /// exceeds the draw, none if there is no such target.
+    pub oracle: Option<DrawOracle>,
+}
+
+/// The 32-bit words the framework's random source will return next, in order.
+#[derive(Clone, Debug)]
+pub enum DrawOracle {
+    Script(crate::util::ScriptRng),
+    Words { words: Vec<u32>, pos: usize },
+}
+
+impl DrawOracle {
+    fn next_u32(&mut self) -> u32 {
+        match self {
+            DrawOracle::Script(r) => rand_core::RngCore::next_u32(r),
+            DrawOracle::Words { words, pos } => {
+                let w = words.get(*pos).copied().unwrap_or(0);
+                *pos += 1;
+                w
+            }
+        }
+    }
+}
+
+/// True when no distribution of these machines consumes randomness (all are constants).
+pub fn only_transition_draws(machines: &[Machine]) -> bool {
+    let konst = |d: &Dist| matches!(d.dist, maybenot::dist::DistType::Uniform { low, high } if low == high);
+    machines.iter().all(|m| {
+        m.states.iter().all(|s| {
+            let a = match &s.action {
+                Some(Action::SendPadding { timeout, limit, .. }) => konst(timeout) && limit.as_ref().map_or(true, konst),
+                Some(Action::BlockOutgoing { timeout, duration, limit, .. }) => konst(timeout) && konst(duration) && limit.as_ref().map_or(true, konst),
+                Some(Action::UpdateTimer { duration, limit, .. }) => konst(duration) && limit.as_ref().map_or(true, konst),
+                _ => true,
+            };
+            let c = |c: &Option<maybenot::counter::Counter>| c.as_ref().map_or(true, |c| c.copy || c.dist.as_ref().map_or(true, konst));
+            a && c(&s.counter.0) && c(&s.counter.1)
+        })
+    })
 }
 
 struct Cursor<'l> {
@@ -189,6 +232,7 @@ impl<'a> RefFw<'a> {
             slots: vec![None; machines.len()],
             permits: vec![(false, false); machines.len()],
             stats: RuleStats::default(),
+            oracle: None,
         })
     }
 
@@ -403,6 +447,29 @@ impl<'a> RefFw<'a> {
             Step::Sampled { machine, next } if *machine == mi => *next,
             other => return Err(format!("{want}: expected Sampled, log has {other:?}")),
         };
+        if !targets.is_empty() {
+            if let Some(o) = self.oracle.as_mut() {
+                // one 32-bit word per draw, the uniform value is its top 23 bits / 2^23 (C06 checks that)
+                let w = o.next_u32();
+                let r = (w >> 9) as f32 / 8_388_608.0;
+                let mut sum = 0.0f32;
+                let mut prescribed = None;
+                for t in targets.iter() {
+                    sum += t.1;
+                    if r < sum {
+                        prescribed = Some(t.0);
+                        break;
+                    }
+                }
+                self.stats.draws_checked += 1;
+                if prescribed != next {
+                    return Err(format!(
+                        "{want}: sampled target: the draw {r} (word {w:#010x}) over {:?} prescribes {prescribed:?}, the framework took {next:?}",
+                        targets.iter().map(|t| (t.0, t.1)).collect::<Vec<_>>()
+                    ));
+                }
+            }
+        }
         let Some(next) = next else {
             if targets.is_empty() {
                 self.stats.no_transition_declared += 1;
